@@ -7,7 +7,7 @@ From Coq Require Import String.
 From Coq Require Import List Bool Arith NArith ZArith.
 Import ListNotations.
 Require Import Words Str Rx RxFacts TextModel TextProofs.
-Require Rx RxLang WordToken G_rx.
+Require Rx RxLang RxSub WordToken G_rx.
 
 Theorem C10_no_listed_word_survives :
   forall (lc : Words.chr -> Words.chr) (hex : Words.chr -> bool) (P : list Words.chr -> list Words.chr),
@@ -58,9 +58,20 @@ Theorem C10_word_pattern_is_what_python_compiles_on_a_sample :
   end.
 Proof. exact WordToken.word_template_is_what_python_compiles_on_a_sample. Qed.
 
+
+(* ... and the other half: wherever a case variant of a listed word occurs in a text (inside a longer string or not), the word pattern has a match starting
+   there, so the leftmost search over that text finds a match: a token containing a listed word in any letter case is always rewritten by the stage (unless
+   the token as a whole is a reserved word, which the stage tests first).  Through the engine's completeness for anchor-free patterns (lib/RxLang.lang_ms). *)
+Theorem C10_every_occurrence_of_a_listed_word_makes_the_pattern_match :
+  forall (s : list Rx.chr) (words reserved : list str) (salt : str) (a : word_anonymizer) (w t : list Rx.chr) (i : nat),
+  word_init words salt reserved = Done a -> In w (map lower_str words) -> w <> [] -> Forall2 WordToken.folds_to t w -> RxLang.occ s t i ->
+  RxSub.search s (w_regex a) <> None.
+Proof. exact WordToken.word_occurrence_makes_the_pattern_match. Qed.
+
 Print Assumptions C10_no_listed_word_survives.
 Print Assumptions C10_reserved_token_untouched.
 Print Assumptions C10_reserved_secret_untouched.
 Print Assumptions C10_word_pattern_matches_only_case_variants_of_listed_words.
 Print Assumptions C10_case_variant_on_ascii_is_equality_up_to_letter_case.
 Print Assumptions C10_word_pattern_is_what_python_compiles_on_a_sample.
+Print Assumptions C10_every_occurrence_of_a_listed_word_makes_the_pattern_match.
